@@ -182,7 +182,7 @@ func init() {
 		pkgPath:   "github.com/yandex/pandora/core/engine",
 		module:    "InstLoop",
 		namespace: "Pandora.Gen.InstLoop",
-		imports:   []string{"Pandora.Model.C03Loop", "Pandora.Model.C03Await", "Pandora.Model.C03Start"},
+		imports:   []string{"Pandora.Model.C03Loop", "Pandora.Model.C03Await", "Pandora.Model.C03Start", "Pandora.Model.C03Comp"},
 		extra:     instloopExtra,
 	}
 }
@@ -633,6 +633,8 @@ func instloopExtra(t *tr) string {
 	b.WriteString(instloopAwait(t, en))
 	// ---- engine.go: startInstances / runNewInstance / runAsync; plugin: the factory built by the registry (area_instloop_start.go)
 	b.WriteString(instloopStart(t, en))
+	// ---- schedule: the composite profile at the granularity of its lock sections (area_instloop_comp.go)
+	b.WriteString(instloopComp(t, sp))
 	return b.String()
 }
 
